@@ -515,6 +515,12 @@ NoHistView == <<db, tail, cache, waiting, cancelled, x, cur, live, maxAdded, see
 BehaviourOut ==
   TLCGet("level") < TLCGet("config").depth \/ PrintT(<<"BEHAVIOUR", ToJson(hist)>>)
 
+\* edge cover (KeepHist = 2, VIEW NoHistView, ACTION_CONSTRAINT EdgeOut): TLC
+\* evaluates an action constraint once per transition of the state graph; hist'
+\* is a shortest behaviour to the source state followed by this transition, so
+\* one behaviour per transition is printed.  Always TRUE.
+EdgeOut == PrintT(<<"EDGE", ToJson(hist')>>)
+
 \* pinned-tree model (Fixed = FALSE, KeepHist = 1, VIEW NoHistView): print one
 \* shortest behaviour per state in which the step just taken crashed a reader or
 \* parked it although a successor exists.  Always TRUE: exploration continues.
